@@ -17,6 +17,11 @@ RULE = ("random edit histories (set tiny/huge/empty/unicode values, save with de
 
 def run(ctx):
     containers.run_histories(ctx, {"foreign"}, RULE)
+    # MP4: the layout family of C10 under random edit histories (saves with every padding choice, deletes, repeated
+    # saves) with its structural oracle: sizes equal extents at every level, offset tables address the same media bytes,
+    # mdat payloads unchanged
+    from props import c10
+    c10.run_shared(ctx, lambda i: [c10.gen_history(ctx.rng, ctx.budget(4, 8), big_ok=(i % 9 == 0))] + ([] if ctx.quick else [c10.gen_history(ctx.rng, 6)]), "c02")
     id3file_tie.run(ctx)
     dsf_tie.run(ctx)
     asf_tie.run(ctx)
